@@ -73,6 +73,9 @@ func tzChoices() []tzChoice {
 		{"GMT-03", time.FixedZone("x", -3*3600)},
 		{"UTC-09:30", time.FixedZone("x", -(9*3600 + 1800))},
 		{"UTC+1:00", time.FixedZone("x", 3600)},
+		{"UTC+5:45", time.FixedZone("x", 5*3600+2700)},
+		{"UTC-3:30", time.FixedZone("x", -(3*3600 + 1800))},
+		{"GMT+9:30", time.FixedZone("x", 9*3600+1800)},
 	}
 }
 
@@ -132,7 +135,10 @@ type jcVersion struct {
 	Nbf, Naf    *int64 // unix seconds
 	Ls, Lu      *int64
 	fires       [][]int64 // oracle, filled by computeFires
+	rv          string    // resourceVersion, one per version (assigned at first use)
 }
+
+var cronRV int64
 
 func (v *jcVersion) active() bool { return v.HasSchedule && !v.Disabled && v.HasCron }
 
@@ -145,8 +151,12 @@ func mt(p *int64) *metav1.Time {
 }
 
 func (v *jcVersion) obj() *execution.JobConfig {
+	if v.rv == "" {
+		cronRV++
+		v.rv = fmt.Sprint(cronRV)
+	}
 	jc := &execution.JobConfig{
-		ObjectMeta: metav1.ObjectMeta{Namespace: nsOf(v.Name), Name: bareOf(v.Name), UID: types.UID(v.UID)},
+		ObjectMeta: metav1.ObjectMeta{Namespace: nsOf(v.Name), Name: bareOf(v.Name), UID: types.UID(v.UID), ResourceVersion: v.rv},
 	}
 	jc.Spec.Concurrency.Policy = execution.ConcurrencyPolicyAllow
 	if v.HasSchedule {
@@ -682,11 +692,13 @@ func runCron(ctx *RunCtx) *Result {
 					switch c.Intn(6) {
 					case 0: // status-only change
 						cp := *old
+						cp.rv = ""
 						cp.Ls = g.around(now / nsPerSec)
 						nv = &cp
 						res.Count("update-status")
 					case 1: // toggle disabled
 						cp := *old
+						cp.rv = ""
 						cp.Disabled = !cp.Disabled
 						nv = &cp
 						res.Count("update-toggle")
